@@ -7,13 +7,17 @@
    operations, directory move-ins, move-outs and what follows them, a directory renamed over an empty directory of the tree -
    COMPLETENESS (the stream is the per-operation contracts, block by block up to collapse: C03_contract_sequential) and
    SOUNDNESS (sound_along holds: C03_sound_pipeline_sequential).  The pinned refutations (F10, F10e) and their _repaired twins.
-   STATED ONLY: C03_sound_full_current - soundness over ALL interleavings: bursts of operations before a read, partial reads
-   (ARead k cutting the queue), the pairing delay not elapsed between read and emit. *)
+   The same with PARTIAL READS: every block's records split arbitrarily between several ARead steps (C03_contract_cuts,
+   C03_sound_pipeline_cuts), and with LOOSE TIMING after the reads: any ticks and queue_events calls before the final delay
+   (C03_contract_loose).  No operation, tick or queue_events call between the reads of a block.
+   STATED ONLY: C03_sound_full_current - soundness over ALL interleavings: bursts of operations before the previous block is
+   drained, ticks / queue_events between the reads of a block. *)
 Require Import WD.Base.Prelude WD.Base.BStr WD.Model.SubEvents WD.Model.Emitter WD.Model.Fs WD.Model.Reader
                WD.Model.DelayQueue WD.Model.Grouping WD.Model.Pipeline WD.Model.Contract.
 Require Import WD.Proofs.ContractProofs WD.Proofs.TieProofs WD.Proofs.MoveOutProofs WD.Proofs.CoverProofs WD.Proofs.ReplaceProofs
                WD.Proofs.CoverOutProofs WD.Proofs.ReplayProofs WD.Proofs.ReplayOutProofs WD.Proofs.SoundSeqProofs
-               WD.Proofs.ReplayPipeProofs WD.Proofs.SoundPipeProofs.
+               WD.Proofs.ReplayPipeProofs WD.Proofs.SoundPipeProofs
+               WD.Proofs.CutsProofs WD.Proofs.CutsPipeProofs WD.Proofs.SoundCutsProofs WD.Proofs.SoundLooseProofs.
 
 (* ================================================================== soundness: shape of what [emit] produces *)
 (* Hold for every item, every configuration, every content oracle - no hypothesis. *)
@@ -487,6 +491,67 @@ Theorem C03_contract_sequential : forall P ops w s0, let C := pc_reader P in
 Proof. exact sound_pipeline_from_start. Qed.
 Print Assumptions C03_contract_sequential.
 
+(* ================================================================== partial reads *)
+(* c02p's cut histories ([cut_hist P ct]): per operation AOp; ARead n1; ...; ARead nk; ATick of the pairing delay; AEmit until
+   the buffer is empty, where the cutter [ct] chooses in every state how the records of the next operation are split between
+   reads - any split that adds up to the kernel queue ([sum_cutter]), also between the two halves of a rename.  Excluded by
+   the shape: an operation or a tick BETWEEN the reads of a block (a tick there can let a lone IN_MOVED_FROM leave the buffer
+   before its IN_MOVED_TO is read: the stream is then deleted + created, not the contract).  Class: ops_x3. *)
+Theorem C03_blocks_sound_cuts : forall P ct, let C := pc_reader P in
+  c_faults C = [] -> c_fix_moveout C = true -> c_mask C = WATCHDOG_ALL -> pc_filter P = None -> sum_cutter P ct ->
+  forall ops s hot recs, PSx P s hot -> ops_x3 C (p_world s) hot ops ->
+  exists h s' obs hot' chunks, cut_hist P ct s ops h /\ prun P s h [] = Done (s', obs) /\ PSx P s' hot' /\
+    sound_along P s recs h = true /\
+    p_out s' = p_out s ++ concat chunks /\
+    Forall2 (fun ch ct0 => collapse ch = collapse ct0) chunks (contracts_of C (pc_full P) (p_world s) ops).
+Proof. exact blocks_sound_cuts. Qed.
+Print Assumptions C03_blocks_sound_cuts.
+
+Theorem C03_sound_pipeline_cuts : forall P ct ops w s0, let C := pc_reader P in
+  c_faults C = [] -> c_fix_moveout C = true -> c_mask C = WATCHDOG_ALL -> pc_filter P = None -> sum_cutter P ct -> wf_fs w ->
+  fisdir (c_root C) (w_fs w) = true -> pinit P w = Some s0 -> ops_x3 C w None ops ->
+  exists h s' obs, cut_hist P ct s0 ops h /\ prun P s0 h [] = Done (s', obs) /\ sound_along P s0 [] h = true.
+Proof. exact sound_pipeline_cuts. Qed.
+Print Assumptions C03_sound_pipeline_cuts.
+
+Theorem C03_contract_cuts : forall P ct ops w s0, let C := pc_reader P in
+  c_faults C = [] -> c_fix_moveout C = true -> c_mask C = WATCHDOG_ALL -> pc_filter P = None -> sum_cutter P ct -> wf_fs w ->
+  fisdir (c_root C) (w_fs w) = true -> pinit P w = Some s0 -> ops_x3 C w None ops ->
+  exists h s' obs chunks, cut_hist P ct s0 ops h /\ prun P s0 h [] = Done (s', obs) /\
+    sound_along P s0 [] h = true /\
+    p_out s' = concat chunks /\
+    Forall2 (fun ch ct0 => collapse ch = collapse ct0) chunks (contracts_of C (pc_full P) w ops).
+Proof. exact contract_pipeline_cuts. Qed.
+Print Assumptions C03_contract_cuts.
+
+(* ================================================================== the pairing delay *)
+(* Between the last read of a block and the final "ATick delay; AEmit ..." ANY sequence of ATick and AEmit steps may happen
+   ([loose_history]: AOp; the cut reads; L; ATick delay; AEmit x nit with L chosen by the timer [lt]): the delay in several
+   parts, queue_events called before the delay of a lone IN_MOVED_FROM has elapsed (nothing is delivered: the state is
+   unchanged), items delivered early.  Stream, soundness and completeness are those of the one-read block.  Still excluded by
+   the shape: a tick or queue_events call BETWEEN the reads of a block, and operations before the block is drained. *)
+Theorem C03_blocks_sound_loose : forall P ct lt, let C := pc_reader P in
+  c_faults C = [] -> c_fix_moveout C = true -> c_mask C = WATCHDOG_ALL -> pc_filter P = None ->
+  sum_cutter P ct -> loose_timer lt ->
+  forall ops s hot recs, PSx P s hot -> ops_x3 C (p_world s) hot ops ->
+  exists h s' obs hot' chunks, loose_hist P ct lt s ops h /\ prun P s h [] = Done (s', obs) /\ PSx P s' hot' /\
+    sound_along P s recs h = true /\
+    p_out s' = p_out s ++ concat chunks /\
+    Forall2 (fun ch ct0 => collapse ch = collapse ct0) chunks (contracts_of C (pc_full P) (p_world s) ops).
+Proof. exact blocks_sound_loose. Qed.
+Print Assumptions C03_blocks_sound_loose.
+
+Theorem C03_contract_loose : forall P ct lt ops w s0, let C := pc_reader P in
+  c_faults C = [] -> c_fix_moveout C = true -> c_mask C = WATCHDOG_ALL -> pc_filter P = None ->
+  sum_cutter P ct -> loose_timer lt -> wf_fs w ->
+  fisdir (c_root C) (w_fs w) = true -> pinit P w = Some s0 -> ops_x3 C w None ops ->
+  exists h s' obs chunks, loose_hist P ct lt s0 ops h /\ prun P s0 h [] = Done (s', obs) /\
+    sound_along P s0 [] h = true /\
+    p_out s' = concat chunks /\
+    Forall2 (fun ch ct0 => collapse ch = collapse ct0) chunks (contracts_of C (pc_full P) w ops).
+Proof. exact contract_pipeline_loose. Qed.
+Print Assumptions C03_contract_loose.
+
 (* ================================================================== tie to the Pipeline model *)
 (* [deliver_one] is what the Pipeline model (validated in lock-step against the real observer) delivers for
    AOp o; ARead (whole kernel queue); ATick delay; AEmit x nit, from any state whose buffer is idle (nothing queued,
@@ -699,3 +764,22 @@ Example C03_pipeline_sequential_nonvacuous :
     collapse (p_out s) = collapse (concat (contracts_of (cfgo true) false w0 seq3_ops)) /\
     length (p_out s) = 18%nat /\ In (mk DirModified (sub pR 98) []) (p_out s).
 Proof. split; [exact seq3_ops_x3 | exact seq3_run]. Qed.
+
+(* C03_contract_cuts / C03_sound_pipeline_cuts: the history of C03_pipeline_sequential_nonvacuous with the cutter that reads the
+   first record of every operation alone and then the rest (every rename is cut between IN_MOVED_FROM and IN_MOVED_TO): the
+   cutter adds up, and the Pipeline model delivers the same 18 events as with one read per operation *)
+Example C03_pipeline_cuts_nonvacuous :
+  sum_cutter phx_P first_cutter /\ ops_x3 (cfgo true) w0 None seq3_ops /\
+  exists s0 s s1, pinit phx_P w0 = Some s0 /\ run_cuts phx_P first_cutter 4 s0 seq3_ops = Some s /\
+    run_blocks phx_P 4 s0 seq3_ops = Some s1 /\ p_out s = p_out s1 /\ length (p_out s) = 18%nat /\
+    collapse (p_out s) = collapse (concat (contracts_of (cfgo true) false w0 seq3_ops)).
+Proof. split; [exact (first_cutter_sum phx_P) | split; [exact seq3_ops_x3 | exact seq3_cuts_run]]. Qed.
+
+(* C03_contract_loose: the history and cutter of C03_pipeline_cuts_nonvacuous with the timer AEmit; ATick 2; AEmit; AEmit;
+   ATick 2; AEmit between the reads and the final ATick 5 (queue_events before any time has passed, the delay as 2+2+5):
+   the same 18 events *)
+Example C03_pipeline_loose_nonvacuous :
+  loose_timer early_timer /\ sum_cutter phx_P first_cutter /\
+  exists s0 s s1, pinit phx_P w0 = Some s0 /\ run_loose phx_P first_cutter early_timer 4 s0 seq3_ops = Some s /\
+    run_blocks phx_P 4 s0 seq3_ops = Some s1 /\ p_out s = p_out s1 /\ length (p_out s) = 18%nat.
+Proof. split; [exact early_timer_ok | split; [exact (first_cutter_sum phx_P) | exact seq3_loose_run]]. Qed.
